@@ -103,7 +103,7 @@ Definition cplx : Type := (fl * fl)%type.
 Definition StC (lib : flib) : Storage :=
   mkStorage cplx fl (fun z => hyp (fst z) (snd z)) (fun x => (x, B754_zero false)) (CFfloat prec emax Hprec Hmax lib).
 
-Definition cadd (a b : cplx) : cplx := (fadd prec emax Hprec Hmax (fst a) (fst b), fadd prec emax Hprec Hmax (snd a) (snd b)).
+Definition cxadd (a b : cplx) : cplx := (fadd prec emax Hprec Hmax (fst a) (fst b), fadd prec emax Hprec Hmax (snd a) (snd b)).
 Definition csub_ (a b : cplx) : cplx := (fsub prec emax Hprec Hmax (fst a) (fst b), fsub prec emax Hprec Hmax (snd a) (snd b)).
 Definition cmul_ (a b : cplx) : cplx :=
   (fsub prec emax Hprec Hmax (fmul prec emax Hprec Hmax (fst a) (fst b)) (fmul prec emax Hprec Hmax (snd a) (snd b)),
